@@ -1,4 +1,4 @@
-\* quick + thorough: the repaired design, 2 requests, shutdown at any point - every safety clause and liveness
+\* quick (with MaxNow = 4) + thorough: the repaired design, 2 requests, shutdown at any point - every safety clause and liveness
 CONSTANTS
   Req = {"r1", "r2"}
   Prio <- cPrio2
@@ -18,8 +18,8 @@ CONSTANTS
   SlotStrict = TRUE
   CallsStopAll = TRUE
 SPECIFICATION FairSpec
-INVARIANTS TypeOK OneVerdict OnlyIfQuota Order SizeBound NoCrash Protocol Faithful
-PROPERTIES Answered
+INVARIANTS TypeOK OneVerdict OnlyIfQuota Order SizeBound NoCrash Protocol Faithful NotStranded
+PROPERTIES Answered DrainReleases
 VIEW View
 CHECK_DEADLOCK FALSE
 
